@@ -7,11 +7,13 @@
 package c23
 
 import (
+	"context"
 	"fmt"
 	"os"
 	"path/filepath"
 	"sort"
 	"strings"
+	"time"
 	"unicode"
 	"unicode/utf8"
 
@@ -503,11 +505,29 @@ func runGlob(c *reg.Ctx, w *world, pat string) {
 	chdir(w)
 	var items []string
 	var seen []string
-	glob.Glob(pat, func(pi glob.PathInfo) bool {
-		items = append(items, Pair(Str(pi.Path), kindOf(pi.Info.Mode())))
-		seen = append(seen, pi.Path)
-		return true
-	})
+	direct := ""
+	func() {
+		defer func() {
+			if r := recover(); r != nil {
+				direct = fmt.Sprintf("glob.Glob(%q) panicked: %v", pat, r)
+			}
+		}()
+		glob.Glob(pat, func(pi glob.PathInfo) bool {
+			items = append(items, Pair(Str(pi.Path), kindOf(pi.Info.Mode())))
+			seen = append(seen, pi.Path)
+			if len(seen) > maxResults {
+				direct = fmt.Sprintf("glob.Glob(%q): runaway expansion, more than %d paths from a tree of a few dozen entries", pat, maxResults)
+				return false
+			}
+			return true
+		})
+	}()
+	if direct != "" {
+		c.Emit(reg.Case{Direct: direct, Class: "glob/runaway",
+			Desc: desc{w.root.show(), strings.Join(w.cwd, "/"), "glob.Glob", pat, direct},
+			Key:  fmt.Sprintf("g/%d/%q", w.id, pat)})
+		return
+	}
 	parsed := glob.Parse(pat)
 	ms := msegsOfPattern(parsed)
 	class := classify("glob", ms, false, w.root.hasLink())
@@ -533,6 +553,8 @@ func runGlob(c *reg.Ctx, w *world, pat string) {
 
 var evaler = eval.NewEvaler()
 
+const maxResults = 3000
+
 func runElvish(c *reg.Ctx, w *world, ps []piece) {
 	chdir(w)
 	pre, expr := piecesCode(ps)
@@ -541,9 +563,18 @@ func runElvish(c *reg.Ctx, w *world, ps []piece) {
 	if err != nil {
 		panic(err)
 	}
+	ctx, cancel := context.WithTimeout(context.Background(), 10*time.Second)
 	xerr := evaler.Eval(parse.Source{Name: "[c23]", Code: code},
-		eval.EvalCfg{Ports: []*eval.Port{eval.DummyInputPort, port, eval.DummyOutputPort}})
+		eval.EvalCfg{Ports: []*eval.Port{eval.DummyInputPort, port, eval.DummyOutputPort}, Interrupts: ctx})
+	cancel()
 	vs, _ := collect()
+	if len(vs) > maxResults {
+		msg := fmt.Sprintf("%s: runaway expansion, more than %d paths from a tree of a few dozen entries", code, maxResults)
+		c.Emit(reg.Case{Direct: msg, Class: "elvish/runaway",
+			Desc: desc{w.root.show(), strings.Join(w.cwd, "/"), "elvish", code, msg},
+			Key:  fmt.Sprintf("e/%d/%q", w.id, code)})
+		return
+	}
 	var obs, obsText string
 	if xerr == nil {
 		items := make([]string, 0, len(vs))
